@@ -44,6 +44,16 @@ CHECKS = {
         note=CTL_NOTE + "The close reason is not part of the model (clean and unclean are both exercised in the correspondence run).",
         technique="Lean 4: invariants by induction over all input sequences of the control-connection model; differential correspondence",
         ref='§4 C03'),
+    'C13': dict(
+        text=("C13_getinfo (any set of distinct requested keys, any single-line values incl. '=', spaces, text that looks like other keys or status "
+              "lines: result maps each key to exactly its value), C13_multiline (one key answered with a data block: all lines, in order, incl. "
+              "lines starting with '.' or looking like other=value), C13_getconf (unset -> DEFAULT_VALUE sentinel, set once -> the string incl. empty, "
+              "n>=2 -> the list in order), C13_getconf_single_unset_vs_empty — by induction over the lines through the loop invariant of parse_keywords. "
+              "Hypotheses H are explicit and decidable; each excluded class has a kernel-checked witness (C13_fails_*) that is replayed on the real "
+              "code and listed as a known finding. Correspondence: reference encoder -> real protocol (bytes) vs the Lean control model + parser."),
+        note=NOTE_COMMON + "Reply bytes -> reply text relies on C01 (the driver runs the control-connection model). Known findings: quoted values are unquoted, data line OK dropped, data line repeating the requested key, literal DEFAULT.",
+        technique="Lean 4: loop-invariant induction over parse_keywords + inverse-of-encoder theorems; negation witnesses by decide; differential correspondence",
+        ref='§4 C13'),
     'C12': dict(
         text=("Theorems C12_roundtrip / C12_one_line / C12_refuse_iff / C12_wire: for every list of pairs and every value over all of Char, "
               "Tor's SETCONF grammar (Spec/KvLine) parses the model's command back to exactly the pairs, and the command contains no CR/LF; "
